@@ -59,11 +59,14 @@ def run_one(args):
 
 
 def main():
-    which = sys.argv[1] if len(sys.argv) > 1 else 'all'
+    which = sys.argv[1] if len(sys.argv) > 1 and not sys.argv[1].startswith('--') else 'all'
     jobs = []
     if which in ('all', 'seeded'):
         for d in sorted(glob.glob('/verif/seeded/*/')):
             jobs.append((len(jobs), 'seed ' + os.path.basename(d.rstrip('/')), d + 'patch.diff'))
+    if which in ('benign',):
+        for p in sorted(glob.glob('/verif/benign/*.diff')):
+            jobs.append((len(jobs), 'benign ' + os.path.basename(p)[:-5], p))
     if which in ('all', 'regress'):
         for p in sorted(glob.glob('/verif/regress/*.diff')):
             jobs.append((len(jobs), 'regress ' + os.path.basename(p)[:-5], p))
@@ -82,13 +85,20 @@ def main():
         det = {p: r for p, r in out.items() if not r[0].startswith('ERR')}
         errs = {p: r for p, r in out.items() if r[0].startswith('ERR')}
         flag = ''
-        if not det:
+        if name.startswith('benign'):
+            flag = '  <<< FALSE ALARM' if det or errs else '  silent'
+        elif not det:
             flag = '  <<< MISSED'
             missed += 1
         elif target and target not in det:
             flag = f'  (not under {target})'
         print(f"{name:16s} {' '.join(f'{p}[{','.join(r)}]' for p, r in det.items())}{flag}" + (f"  ERRS {errs}" if errs else ''))
     print(f'{len(results)} patches, {missed} missed, {time.time() - t0:.0f}s')
+    if '--write-expected' in sys.argv:
+        exp = {name: sorted(p for p, r in (out or {}).items() if not r[0].startswith('ERR')) for name, out, _e in results if out is not None}
+        path = os.path.join(os.path.dirname(os.path.dirname(os.path.abspath(__file__))), 'selftest_expected.json')
+        json.dump(exp, open(path, 'w'), indent=1, sort_keys=True)
+        print('wrote', path)
     for i in range(14):
         sh(f'git -C /repo worktree remove --force {WT_BASE}_{i}')
 
